@@ -57,7 +57,7 @@ func (s scenario) String() string {
 }
 
 var (
-	nScen, nTx, nBusy, nGapChecked int64
+	nScen, nTx, nBusy, nGapChecked, nEmptyLost int64
 	stragglerHist                = map[int]int64{}
 	silenceMinMs                 = map[string]float64{}
 )
@@ -84,6 +84,17 @@ func runScenario(sc scenario, judge bool) outcome {
 	defer rt.Close()
 	can := mon.StartCanary()
 	defer can.Stop()
+	if sc.Seed%2 == 0 {
+		// a lost indication that finds nothing to retransmit (fresh client; count 0, 2):
+		// it must leave the client able to send
+		if _, expired := s.DeliverTimeout(&knxnet.RoutingLost{Count: uint16(sc.Seed % 4)}, 10*time.Second); expired && judge {
+			r.Violate("receive-loop.stuck", attrs, map[string]interface{}{"scenario": sig}, "[%s] the receive loop did not take a lost indication on a fresh client within 10 s", sig)
+		}
+		// barrier: the receive loop takes the next frame only after it has dealt with the
+		// lost indication (otherwise the first Sends could still be picked up by it)
+		s.DeliverTimeout(&knxnet.RoutingInd{Payload: gateway.Ind(0xfffffff0)}, 10*time.Second)
+		atomic.AddInt64(&nEmptyLost, 1)
+	}
 	var wg sync.WaitGroup
 	startSenders := func() {
 		for g := 0; g < sc.G; g++ {
@@ -117,6 +128,11 @@ func runScenario(sc scenario, judge bool) outcome {
 		s.WaitTx(spec.SvcRoutingInd, 0, 2, 5*time.Second)
 		if _, expired := s.DeliverTimeout(&knxnet.RoutingLost{Count: uint16(1 + sc.G%3)}, 10*time.Second); expired && judge {
 			r.Violate("receive-loop.stuck", attrs, map[string]interface{}{"scenario": sig}, "[%s] the receive loop did not take a lost indication within 10 s", sig)
+		}
+		if sc.Seed%3 == 0 {
+			// ... followed by one that announces nothing lost
+			s.DeliverTimeout(&knxnet.RoutingLost{Count: 0}, 10*time.Second)
+			atomic.AddInt64(&nEmptyLost, 1)
 		}
 		tIn = s.Now()
 	case "idle":
@@ -506,6 +522,7 @@ func run(rr *mon.Run) {
 	}
 	r.Observe("scenarios", nScen)
 	r.Observe("routing_indications_on_the_wire", nTx)
+	r.Observe("lost_indications_with_nothing_to_retransmit", nEmptyLost)
 	r.Observe("busy_indications", nBusy)
 	r.Observe("consecutive_gaps_checked", nGapChecked)
 	hist := map[string]int64{}
